@@ -1,11 +1,9 @@
 #!/bin/bash
-# usage: tools/runmut.sh C07-a C07 [quick|thorough] — applies the seeded change to /repo, runs the check, undoes it.
+# usage: tools/runmut.sh C07-a C07 [quick|thorough]
+# Runs a check against the scratch worktree /tmp/mutchk/<N> (patch applied there by evalmut.sh) via
+# VERIF_REPO, so /repo is not touched. The evidence file of the real tree is preserved.
 N=$1; P=$2; T=${3:-quick}
 cd /verif
-[ -z "$(git -C /repo status --porcelain)" ] || { echo "/repo not clean"; exit 2; }
-git -C /repo apply /tmp/mut/$N.out/patch.diff || { echo "patch does not apply to /repo"; exit 2; }
-cp evidence/$P.json /tmp/evidence-$P.bak 2>/dev/null
-./check $P $T 2>&1 | grep -a "VIOLATION\|KNOWN\|INCONCL\|$P $T" | cut -c1-500 | head -12
-echo "check rc=${PIPESTATUS[0]}"
-git -C /repo checkout -- . ; git -C /repo status --porcelain
-cp /tmp/evidence-$P.bak evidence/$P.json 2>/dev/null
+cp evidence/$P.json /tmp/evidence-$P-$N.bak 2>/dev/null
+VERIF_REPO=/tmp/mutchk/$N ./check $P $T 2>&1 | grep -a "VIOLATION\|KNOWN\|INCONCL\|$P $T" | cut -c1-420 | head -${4:-10}
+cp /tmp/evidence-$P-$N.bak evidence/$P.json 2>/dev/null
